@@ -74,7 +74,7 @@ type RPCFault struct {
 // the number of operations of the fault-free run) of the step's Sync.
 type DBFault struct {
 	Op   int    `json:"op"`
-	Mode string `json:"mode"` // stmt | drop | drop-after-commit
+	Mode string `json:"mode"` // stmt | drop | drop-commit | drop-after-commit
 	Sub  int    `json:"sub"`  // which statement / message of the operation (modulo)
 }
 
@@ -137,10 +137,13 @@ func New(repo string) (*Rig, error) {
 	if err != nil {
 		return nil, err
 	}
-	// one connection: the order of frontend messages is then the order of the code's calls
+	// Several pool connections, as in deployment: code that (wrongly) talks to the pool from inside a
+	// BeginFunc gets its own connection and autocommits, instead of dead-locking on a pool of one.
+	// Correct code uses one connection at a time, so the order of frontend messages is the order of
+	// its calls (pgxpool hands out the most recently released connection).
 	cctx, ccancel := context.WithTimeout(ctx, 20*time.Second)
 	defer ccancel()
-	pool, err := pgxpool.Connect(cctx, strings.Replace(pg.ConnString(), "pool_max_conns=4", "pool_max_conns=1&connect_timeout=10", 1))
+	pool, err := pgxpool.Connect(cctx, strings.Replace(pg.ConnString(), "pool_max_conns=4", "pool_max_conns=3&connect_timeout=10", 1))
 	if err != nil {
 		return nil, err
 	}
@@ -320,8 +323,8 @@ func armRPC(e *ethfake.Server, f *RPCFault) {
 // SyncTimeout bounds one Sync call (context deadline); SyncWatchdog is the point at which the
 // rig gives up on a call that ignores its context.
 const (
-	SyncTimeout  = 30 * time.Second
-	SyncWatchdog = 60 * time.Second
+	SyncTimeout  = 8 * time.Second
+	SyncWatchdog = 20 * time.Second
 )
 
 // guard runs f with recover and under a watchdog.
@@ -392,7 +395,7 @@ func (r *Rig) RunSync(s Syncer, header *types.Header, rf *RPCFault, df *DBFault)
 			out.DBFaults = make([]string, oi+1)
 			out.DBFaults[oi] = "fail"
 			mode := df.Mode
-			if mode == "drop-after-commit" && (!op.Tx || op.Commit < 0) {
+			if (mode == "drop-after-commit" || mode == "drop-commit") && (!op.Tx || op.Commit < 0) {
 				mode = "drop"
 			}
 			if mode == "stmt" && len(op.Executes) == 0 {
@@ -411,6 +414,10 @@ func (r *Rig) RunSync(s Syncer, header *types.Header, rf *RPCFault, df *DBFault)
 				at := op.Msgs[df.Sub%n]
 				r.PG.InjectFault(pgfake.Fault{AtMsg: at, Kind: pgfake.DropBefore})
 				out.DBNote = fmt.Sprintf("op %d/%d: DropBefore message %d", oi, len(ops), at)
+			case "drop-commit":
+				at := op.Msgs[op.Commit]
+				r.PG.InjectFault(pgfake.Fault{AtMsg: at, Kind: pgfake.DropBefore})
+				out.DBNote = fmt.Sprintf("op %d/%d: DropBefore the COMMIT message %d", oi, len(ops), at)
 			case "drop-after-commit":
 				at := op.Msgs[op.Commit]
 				r.PG.InjectFault(pgfake.Fault{AtMsg: at, Kind: pgfake.DropAfterCommit})
